@@ -372,3 +372,134 @@ def expand_keyword_dicts(tree: ast.Module) -> int:
         if isinstance(n, ast.FunctionDef):
             total += _expand_kwargs_in_function(n)
     return total
+
+
+# ---------------------------------------------------------------------------------------------------------------------
+# private helper methods
+#
+#     def _conform(self, name, value, dtype):          def add_variable(self, name, value, *, dtype=None):
+#         arr = np.array(value, dtype=dtype)               ...
+#         if arr.shape[0] != len(self.span):        ->     _conform__arr = np.array(value_as_array, dtype=dtype)
+#             raise DimensionError(...)                    if _conform__arr.shape[0] != len(self.span):
+#         return arr                                           raise DimensionError(...)
+#                                                          self.__dict__['_' + name] = _conform__arr
+#     def add_variable(self, ...):
+#         self.__dict__['_' + name] = self._conform(name, value_as_array, dtype)
+#
+# A method qualifies when its name starts with one underscore, it has no decorators, *args or **kwargs, its only
+# `return` is the last statement of its body, and it contains no yield / nested definitions / nonlocal.  A call
+# `self._m(...)` that is the whole right-hand side of an assignment, the whole value of a `return`, or a whole expression
+# statement, in another method of the same class, is replaced by the body with parameters bound and locals renamed.
+
+def _method_qualifies(m: ast.FunctionDef) -> bool:
+    if not m.name.startswith('_') or m.name.startswith('__') or m.decorator_list or m.args.vararg or m.args.kwarg or m.args.posonlyargs:
+        return False
+    if not m.args.args or not m.body or not isinstance(m.body[-1], ast.Return) or m.body[-1].value is None:
+        return False
+    body = [b for b in m.body if not (isinstance(b, ast.Expr) and isinstance(b.value, ast.Constant))]
+    if len(body) < 2:
+        return False  # a one-expression method is read through by the summaries instead
+    for n in ast.walk(m):
+        if n is m or n is m.body[-1]:
+            continue
+        if isinstance(n, (ast.Return, ast.Yield, ast.YieldFrom, ast.Await, ast.Nonlocal, ast.Global, ast.FunctionDef, ast.AsyncFunctionDef, ast.ClassDef, ast.Lambda)):
+            return False
+        if isinstance(n, ast.Call) and isinstance(n.func, ast.Attribute) and n.func.attr == m.name:
+            return False
+    return True
+
+
+def _inline_methods_in_class(c: ast.ClassDef) -> int:
+    helpers = {m.name: m for m in c.body if isinstance(m, ast.FunctionDef) and _method_qualifies(m)}
+    if not helpers:
+        return 0
+    count = 0
+
+    def call_of(e):
+        if isinstance(e, ast.Call) and isinstance(e.func, ast.Attribute) and isinstance(e.func.value, ast.Name) and e.func.value.id == 'self' and e.func.attr in helpers:
+            return helpers[e.func.attr]
+        return None
+
+    def expand(h: ast.FunctionDef, call: ast.Call, at: ast.stmt):
+        """(statements, value expression) or None."""
+        fake = ast.FunctionDef(name=h.name, args=ast.arguments(posonlyargs=[], args=h.args.args[1:], vararg=None, kwonlyargs=h.args.kwonlyargs,
+                                                               kw_defaults=h.args.kw_defaults, kwarg=None, defaults=h.args.defaults), body=h.body, decorator_list=[])
+        bound = _bind_args(fake, call)
+        if bound is None:
+            return None
+        stored = _stored_names(h)
+        ren = {nm: f'{h.name}__{nm}' for nm in (stored | set(bound))}
+        subst = {}
+        pre = []
+        for p, a in bound.items():
+            if p not in stored and isinstance(a, (ast.Name, ast.Constant)):
+                subst[p] = a
+            else:
+                asg = ast.Assign(targets=[ast.Name(id=ren[p], ctx=ast.Store())], value=a)
+                ast.copy_location(asg, at)
+                pre.append(ast.fix_missing_locations(asg))
+        out = list(pre)
+        for hs in h.body[:-1]:
+            if isinstance(hs, ast.Expr) and isinstance(hs.value, ast.Constant) and isinstance(hs.value.value, str):
+                continue
+            x = _Rename({k: v for k, v in ren.items() if k not in subst}).visit(copy.deepcopy(hs))
+            if subst:
+                x = _SubstExpr(subst).visit(x)
+            out.append(ast.fix_missing_locations(x))
+        rv = _Rename({k: v for k, v in ren.items() if k not in subst}).visit(copy.deepcopy(h.body[-1].value))
+        if subst:
+            rv = _SubstExpr(subst).visit(rv)
+        return out, ast.fix_missing_locations(rv)
+
+    def rewrite(body, host):
+        nonlocal count
+        out = []
+        for s in body:
+            h = None
+            if isinstance(s, ast.Assign) and len(s.targets) == 1:
+                h = call_of(s.value)
+            elif isinstance(s, ast.Return) and s.value is not None:
+                h = call_of(s.value)
+            elif isinstance(s, ast.Expr):
+                h = call_of(s.value)
+            if h is not None and h is not host:
+                r = expand(h, s.value, s)
+                if r is not None:
+                    stmts, rv = r
+                    out += stmts
+                    if isinstance(s, ast.Assign):
+                        new = ast.Assign(targets=s.targets, value=rv)
+                    elif isinstance(s, ast.Return):
+                        new = ast.Return(value=rv)
+                    else:
+                        new = ast.Expr(value=rv)
+                    out.append(ast.fix_missing_locations(ast.copy_location(new, s)))
+                    count += 1
+                    continue
+            if not isinstance(s, (ast.FunctionDef, ast.AsyncFunctionDef, ast.ClassDef)):
+                for fld in ('body', 'orelse', 'finalbody'):
+                    blk = getattr(s, fld, None)
+                    if isinstance(blk, list) and blk and isinstance(blk[0], ast.stmt):
+                        setattr(s, fld, rewrite(blk, host))
+                if isinstance(s, ast.Try):
+                    for hd in s.handlers:
+                        hd.body = rewrite(hd.body, host)
+            out.append(s)
+        return out
+
+    for _round in range(2):
+        before = count
+        for m in c.body:
+            if isinstance(m, ast.FunctionDef):
+                m.body = rewrite(m.body, m)
+        if count == before:
+            break
+    return count
+
+
+def inline_private_methods(tree: ast.Module) -> int:
+    total = 0
+    for n in tree.body:
+        if isinstance(n, ast.ClassDef):
+            total += _inline_methods_in_class(n)
+    return total
